@@ -12,6 +12,7 @@ mod p_purge;
 mod p_apply;
 mod p_logcrash;
 mod p_resetrace;
+mod p_votetransport;
 mod p_membership;
 mod p_c10;
 mod p_snapxfer;
@@ -69,6 +70,7 @@ fn dispatch(probe: &str, rt: &tokio::runtime::Runtime, case: Value) -> Value {
         "promote" => p_membership::promote(rt, case),
         "logcrash" => p_logcrash::run(rt, case),
         "resetrace" => p_resetrace::run(rt, case),
+        "vote_round" => p_votetransport::run(rt, case),
         "commit_apply" => p_apply::run(rt, case),
         "purge_role" => p_purge::role(rt, case),
         "purge_route" => p_purge::route(rt, case),
